@@ -172,6 +172,11 @@ var catalogue = []Mutant{
 	{ID: "valid-on-uncut", Rules: []string{"R11.5"}, Note: "validation of the uncut input", Edits: []Edit{{"internal/charset/charset.go", "if hasHighBit && utf8.Valid(content) {", "if hasHighBit && utf8.Valid(origContent) {"}}},
 	{ID: "apk-marker-short", Rules: []string{"R19.1"}, Note: "APK entry name shortened", Edits: []Edit{{"internal/magic/zip.go", "[]byte(\"classes.dex\"),", "[]byte(\"classes\"),"}}},
 	{ID: "extend-under-root", Rules: []string{"R14.1"}, Note: "Extend publishes under the root instead of its receiver", Edits: []Edit{{"mime.go", "\tm.children = append([]*MIME{c}, m.children...)\n", "\troot.children = append([]*MIME{c}, root.children...)\n"}}},
+	{ID: "pool-new-shared", Rules: []string{"R04.3"}, Note: "pool New hands out one package-level object", Edits: []Edit{{"internal/json/parser.go", "var parserPool = sync.Pool{\n\tNew: func() any {\n\t\treturn &parserState{maxRecursion: maxRecursion}", "var sharedState = parserState{maxRecursion: maxRecursion}\n\nvar parserPool = sync.Pool{\n\tNew: func() any {\n\t\treturn &sharedState"}}},
+	{ID: "csv-no-comment", Rules: []string{"R13.3"}, Note: "csv comment character not set", Edits: []Edit{{"internal/magic/text_csv.go", "\tr.Comment = '#'\n", ""}}},
+	{ID: "ndjson-behind-csv", Rules: []string{"R10.3"}, Note: "NDJSON consulted after CSV", Edits: []Edit{{"tree.go", "python, json, ndJSON, rtf, srt, tcl, csv, tsv,", "python, json, rtf, srt, tcl, csv, ndJSON, tsv,"}}},
+	{ID: "pragma-same-state", Rules: []string{"R12.4"}, Note: "content attribute sets the charset attribute's state", Edits: []Edit{{"internal/charset/charset.go", "\t\t\t\t\t\tneedPragma = doNeedPragma\n", "\t\t\t\t\t\tneedPragma = doNotNeedPragma\n"}}},
+	{ID: "ascii-skips-first", Rules: []string{"R11.4"}, Note: "ASCII test skips the first byte", Edits: []Edit{{"internal/charset/charset.go", "func ascii(content []byte) bool {\n\tfor _, b := range content {", "func ascii(content []byte) bool {\n\tfor _, b := range content[1:] {"}}},
 	{ID: "setlimit-noop", Rules: []string{"R04.1"}, Note: "SetLimit stores nothing", Edits: []Edit{{"mimetype.go", "\tatomic.StoreUint32(&readLimit, limit)\n", "\t_ = limit\n"}}},
 }
 
